@@ -56,6 +56,39 @@ pub trait NamingContext {
         }
     }
 
+    /// Compute the serialized name for an enum variant based on serde attributes
+    ///
+    /// Priority:
+    /// 1. Variant-level `#[serde(rename = "...")]` takes precedence
+    /// 2. Enum-level `#[serde(rename_all = "...")]` applies serde's rule for *variants*, which
+    ///    splits PascalCase words (`InProgress` + `SCREAMING_SNAKE_CASE` is `IN_PROGRESS`); the
+    ///    field rule expects snake_case input and would give `INPROGRESS`
+    /// 3. Otherwise the variant keeps its Rust name, as in serde
+    fn compute_variant_name(
+        &self,
+        variant_name: &str,
+        variant_rename: &Option<String>,
+        enum_rename_all: &Option<RenameRule>,
+    ) -> String {
+        if let Some(rename) = variant_rename {
+            rename.to_string()
+        } else if let Some(convention) = enum_rename_all {
+            match convention {
+                // serde_rename_rule slices the first byte for camelCase; do it per character
+                RenameRule::CamelCase => {
+                    let mut chars = variant_name.chars();
+                    match chars.next() {
+                        Some(first) => first.to_ascii_lowercase().to_string() + chars.as_str(),
+                        None => String::new(),
+                    }
+                }
+                other => other.apply_to_variant(variant_name),
+            }
+        } else {
+            variant_name.to_string()
+        }
+    }
+
     /// Compute the serialized name for a parameter based on serde attributes
     ///
     /// Priority:
@@ -378,9 +411,13 @@ impl FieldContext {
     ) -> Self {
         let typescript_type = visitor.visit_type(&field.type_structure);
 
-        // Compute serialized name from serde attributes using NamingContext trait
-        let serialized_name =
-            self.compute_field_name(&field.name, &field.serde_rename, struct_rename_all);
+        // Compute serialized name from serde attributes using NamingContext trait. Enum variants
+        // (marked by the analyser through their pseudo type) follow serde's variant rules.
+        let serialized_name = if field.rust_type.starts_with("enum_variant") {
+            self.compute_variant_name(&field.name, &field.serde_rename, struct_rename_all)
+        } else {
+            self.compute_field_name(&field.name, &field.serde_rename, struct_rename_all)
+        };
 
         self.name = field.name.clone();
         self.rust_type = field.rust_type.clone();
